@@ -195,96 +195,9 @@ def rules(ctx):
     inverse_pairs(ctx, 'R14.2')
 
     # ------------------------------------------------------------ R14.3
+    set_and_count(ctx, 'R14.3')
     fn = P.func('PUBOMatrix.__setitem__')
     selfn = R.self_name(fn)
-    ws = field_writes(fn.node, G2)
-    adds = [w for w in ws if w[2] == '_variables' and w[3] == 'call' and w[4].func.attr == 'add']
-    incs = [w for w in ws if w[2] == '_num_binary_variables' and w[3] == 'aug']
-    bulks = [(w, bulk_registration(fn, selfn, '_variables', w)) for w in ws]
-    bulks = [(w, b) for w, b in bulks if b is not None]
-    if not adds and not bulks:
-        raise AnalysisError("PUBOMatrix.__setitem__: no _variables.add registration found")
-    from ..astutil import expand_names as _xn
-    for w, (ex, dom, guarded) in bulks:
-        blk = parent(enclosing_stmt(w[0]))
-        mate = [i for i in incs if parent(enclosing_stmt(i[0])) is blk and isinstance(i[4][0], ast.Add) and
-                isinstance(i[4][1], ast.Call) and is_name(i[4][1].func, 'len') and len(i[4][1].args) == 1 and
-                src(_xn(fn.node, i[4][1].args[0])) == src(ex)]
-        ok = bool(mate) and guarded
-        ctx.inst('R14.3', fn, w[0], ok,
-                 "new labels joined to the set and counted by their number" if ok else
-                 ("the count is not increased by len() of the labels joined to the set in the same block" if not mate else
-                  "the labels joined to the set are not restricted to those not yet in %s._variables: the count can exceed the set" % selfn))
-    for node, obj, f, kind, call in adds:
-        blk = parent(enclosing_stmt(node))
-        lab = src(call.args[0])
-        mate = [w for w in incs if parent(enclosing_stmt(w[0])) is blk and
-                isinstance(w[4][0], ast.Add) and const_num(w[4][1]) == 1]
-        # guard: label not already in the set (filter lambda or if)
-        guarded = False
-        p = parent(enclosing_stmt(node))
-        loop = p if isinstance(p, ast.For) else None
-        if loop is not None:
-            it = loop.iter
-            if isinstance(it, ast.Call) and is_name(it.func, 'filter') and isinstance(it.args[0], ast.Lambda):
-                lam = it.args[0]
-                arg = lam.args.args[0].arg
-                if compare_atoms(lam.body, True) == [(arg, 'not in', '%s._variables' % selfn)]:
-                    guarded = True
-            if isinstance(it, (ast.GeneratorExp, ast.ListComp)):
-                for gen in it.generators:
-                    for c in gen.ifs:
-                        if (src(gen.target), 'not in', '%s._variables' % selfn) in compare_atoms(c, True):
-                            guarded = True
-        gcf = cfg_of(fn.node)
-        from ..astutil import expand_names
-        for t, pol, o in gcf.edge_dominators(enclosing_stmt(node)):
-            if (lab, 'not in', '%s._variables' % selfn) in compare_atoms(expand_names(fn.node, t), pol):
-                guarded = True
-        ok = bool(mate) and guarded
-        ctx.inst('R14.3', fn, node, ok,
-                 "add paired with count += 1 under `not in`" if ok else
-                 ("count increment missing in the block of the add" if not mate else
-                  "registration not guarded by `%s not in %s._variables`: the count can exceed the set" % (lab, selfn)))
-    for node, obj, f, kind, detail in incs:
-        blk = parent(enclosing_stmt(node))
-        mate = [w for w in adds if parent(enclosing_stmt(w[0])) is blk] + [w for w, b in bulks if parent(enclosing_stmt(w[0])) is blk]
-        ctx.inst('R14.3', fn, node, bool(mate),
-                 "increment paired with add" if mate else "count incremented without adding the variable")
-    for node, obj, f, kind, v in [w for w in ws if w[2] == '_degree' and w[3] == 'assign']:
-        ok = isinstance(v, ast.Call) and is_name(v.func, 'max') and \
-            any(src(a) == '%s._degree' % selfn for a in v.args)
-        if not ok:
-            # the conditional spelling of max: `if new > self._degree: self._degree = new`
-            from ..astutil import expand_names
-            gdeg = cfg_of(fn.node)
-            vt = src(expand_names(fn.node, v))
-            for t_, pol_, o_ in gdeg.edge_dominators(enclosing_stmt(node)):
-                fs = compare_atoms(expand_names(fn.node, t_), pol_)
-                if (vt, '>', '%s._degree' % selfn) in fs or (vt, '>=', '%s._degree' % selfn) in fs:
-                    ok = True
-        ctx.inst('R14.3', fn, node, ok,
-                 "degree grows by max" if ok else "degree assigned without max(self._degree, ...): can shrink "
-                 "below the true degree")
-        # ... for every stored term: the only condition on the update is that the value is non-zero (a constant term has
-        # degree 0, above the -inf of an empty model)
-        from ..astutil import expand_names as _xn2
-        gd = cfg_of(fn.node)
-        valp = fn.params[2] if len(fn.params) > 2 else 'value'
-        vt2 = src(_xn2(fn.node, v)) if isinstance(v, ast.AST) else ''
-        extra = []
-        for t_, pol_, o_ in gd.edge_dominators(enclosing_stmt(node)):
-            for a_ in compare_atoms(_xn2(fn.node, t_), pol_):
-                if a_ in (('truthy', valp), (valp, '!=', '0'), ('0', '!=', valp)):
-                    continue
-                if len(a_) == 3 and '%s._degree' % selfn in (a_[0], a_[2]):
-                    continue        # the conditional spelling of max
-                extra.append(a_)
-        ctx.inst('R14.3', fn, 'guards of the degree update', not extra,
-                 "the degree is raised for every non-zero term" if not extra else
-                 "the degree update is skipped under the extra condition %s: a stored term (e.g. the constant, degree 0) "
-                 "can leave the cached degree below the true one" % (extra[:2],))
-
     # caches only grow outside the constructor (upper-bound clause): any
     # shrinking write in a maintained path is a violation
     for f_ in P.all_funcs():
@@ -719,6 +632,19 @@ def record_and_counter_together(ctx, rid):
                      % (fn.qual, obj))
     if not n:
         raise AnalysisError("record_and_counter_together: no wholesale assignment of _constraints found")
+    # the two derived-model builders of PCBO hand over both (a derived model without the record accepts every assignment)
+    for q in ('PCBO.subs', 'PCBO.__round__'):
+        if not P.has_func(q):
+            continue
+        fq = P.func(q)
+        sq = R.self_name(fq)
+        got = {w[2] for w in field_writes(fq.node, G3) if w[3] == 'assign' and w[1] != sq}
+        okq = {'_constraints', '_ancilla'} <= got
+        ctx.inst(rid, fq, 'derived model of %s' % q, okq,
+                 "%s hands the record and the counter to the derived model" % q if okq else
+                 "%s does not give the derived model %s: it %s" % (q, sorted({'_constraints', '_ancilla'} - got),
+                                                                  "accepts every assignment as valid" if '_constraints' not in got else
+                                                                  "reuses the ancilla names of its constraints"))
     # merging another model's record into one's own (update): the merged constraints bring their ancillas along, so the
     # counter must cover the other model's counter as well
     m = 0
@@ -743,6 +669,102 @@ def record_and_counter_together(ctx, rid):
                      "%s merges the constraint record of `%s` into %s but leaves the ancilla counter alone: the model then holds "
                      "the ancilla variables of those constraints while num_ancillas does not count them, and the next constraint "
                      "added to it uses their names again" % (fn.qual, y, '/'.join(sorted(objs))))
+
+
+def set_and_count(ctx, rid):
+    """R14.3: the variable set and the variable count of PUBOMatrix.__setitem__ grow together (add / += 1 under `not in`, or
+    the bulk form); the cached degree grows by max for every stored term."""
+    P, R = ctx.prog, ctx.res
+    fn = P.func('PUBOMatrix.__setitem__')
+    selfn = R.self_name(fn)
+    ws = field_writes(fn.node, G2)
+    adds = [w for w in ws if w[2] == '_variables' and w[3] == 'call' and w[4].func.attr == 'add']
+    incs = [w for w in ws if w[2] == '_num_binary_variables' and w[3] == 'aug']
+    bulks = [(w, bulk_registration(fn, selfn, '_variables', w)) for w in ws]
+    bulks = [(w, b) for w, b in bulks if b is not None]
+    if not adds and not bulks:
+        raise AnalysisError("PUBOMatrix.__setitem__: no _variables.add registration found")
+    from ..astutil import expand_names as _xn
+    for w, (ex, dom, guarded) in bulks:
+        blk = parent(enclosing_stmt(w[0]))
+        mate = [i for i in incs if parent(enclosing_stmt(i[0])) is blk and isinstance(i[4][0], ast.Add) and
+                isinstance(i[4][1], ast.Call) and is_name(i[4][1].func, 'len') and len(i[4][1].args) == 1 and
+                src(_xn(fn.node, i[4][1].args[0])) == src(ex)]
+        ok = bool(mate) and guarded
+        ctx.inst(rid, fn, w[0], ok,
+                 "new labels joined to the set and counted by their number" if ok else
+                 ("the count is not increased by len() of the labels joined to the set in the same block" if not mate else
+                  "the labels joined to the set are not restricted to those not yet in %s._variables: the count can exceed the set" % selfn))
+    for node, obj, f, kind, call in adds:
+        blk = parent(enclosing_stmt(node))
+        lab = src(call.args[0])
+        mate = [w for w in incs if parent(enclosing_stmt(w[0])) is blk and
+                isinstance(w[4][0], ast.Add) and const_num(w[4][1]) == 1]
+        # guard: label not already in the set (filter lambda or if)
+        guarded = False
+        p = parent(enclosing_stmt(node))
+        loop = p if isinstance(p, ast.For) else None
+        if loop is not None:
+            it = loop.iter
+            if isinstance(it, ast.Call) and is_name(it.func, 'filter') and isinstance(it.args[0], ast.Lambda):
+                lam = it.args[0]
+                arg = lam.args.args[0].arg
+                if compare_atoms(lam.body, True) == [(arg, 'not in', '%s._variables' % selfn)]:
+                    guarded = True
+            if isinstance(it, (ast.GeneratorExp, ast.ListComp)):
+                for gen in it.generators:
+                    for c in gen.ifs:
+                        if (src(gen.target), 'not in', '%s._variables' % selfn) in compare_atoms(c, True):
+                            guarded = True
+        gcf = cfg_of(fn.node)
+        from ..astutil import expand_names
+        for t, pol, o in gcf.edge_dominators(enclosing_stmt(node)):
+            if (lab, 'not in', '%s._variables' % selfn) in compare_atoms(expand_names(fn.node, t), pol):
+                guarded = True
+        ok = bool(mate) and guarded
+        ctx.inst(rid, fn, node, ok,
+                 "add paired with count += 1 under `not in`" if ok else
+                 ("count increment missing in the block of the add" if not mate else
+                  "registration not guarded by `%s not in %s._variables`: the count can exceed the set" % (lab, selfn)))
+    for node, obj, f, kind, detail in incs:
+        blk = parent(enclosing_stmt(node))
+        mate = [w for w in adds if parent(enclosing_stmt(w[0])) is blk] + [w for w, b in bulks if parent(enclosing_stmt(w[0])) is blk]
+        ctx.inst(rid, fn, node, bool(mate),
+                 "increment paired with add" if mate else "count incremented without adding the variable")
+    for node, obj, f, kind, v in [w for w in ws if w[2] == '_degree' and w[3] == 'assign']:
+        ok = isinstance(v, ast.Call) and is_name(v.func, 'max') and \
+            any(src(a) == '%s._degree' % selfn for a in v.args)
+        if not ok:
+            # the conditional spelling of max: `if new > self._degree: self._degree = new`
+            from ..astutil import expand_names
+            gdeg = cfg_of(fn.node)
+            vt = src(expand_names(fn.node, v))
+            for t_, pol_, o_ in gdeg.edge_dominators(enclosing_stmt(node)):
+                fs = compare_atoms(expand_names(fn.node, t_), pol_)
+                if (vt, '>', '%s._degree' % selfn) in fs or (vt, '>=', '%s._degree' % selfn) in fs:
+                    ok = True
+        ctx.inst(rid, fn, node, ok,
+                 "degree grows by max" if ok else "degree assigned without max(self._degree, ...): can shrink "
+                 "below the true degree")
+        # ... for every stored term: the only condition on the update is that the value is non-zero (a constant term has
+        # degree 0, above the -inf of an empty model)
+        from ..astutil import expand_names as _xn2
+        gd = cfg_of(fn.node)
+        valp = fn.params[2] if len(fn.params) > 2 else 'value'
+        vt2 = src(_xn2(fn.node, v)) if isinstance(v, ast.AST) else ''
+        extra = []
+        for t_, pol_, o_ in gd.edge_dominators(enclosing_stmt(node)):
+            for a_ in compare_atoms(_xn2(fn.node, t_), pol_):
+                if a_ in (('truthy', valp), (valp, '!=', '0'), ('0', '!=', valp)):
+                    continue
+                if len(a_) == 3 and '%s._degree' % selfn in (a_[0], a_[2]):
+                    continue        # the conditional spelling of max
+                extra.append(a_)
+        ctx.inst(rid, fn, 'guards of the degree update', not extra,
+                 "the degree is raised for every non-zero term" if not extra else
+                 "the degree update is skipped under the extra condition %s: a stored term (e.g. the constant, degree 0) "
+                 "can leave the cached degree below the true one" % (extra[:2],))
+
 
 
 def clear_reinit(ctx, rid):
@@ -778,6 +800,8 @@ def registration_parity(ctx, rid):
     """R14.4: a label enters the mapping under the same guard and iteration domain as it enters the variable cache."""
     P, R = ctx.prog, ctx.res
     clear_reinit(ctx, rid)
+    if rid != 'R14.4':
+        set_and_count(ctx, rid)     # (C14 itself reports this part under R14.3)
     fn = P.func('PUBOMatrix.__setitem__')
     selfn = R.self_name(fn)
     # ------------------------------------------------------------ R14.4
